@@ -25,6 +25,7 @@ type ConcOpts struct {
 	Resize     bool // a third of the runs: filler keys around the table's grow / shrink thresholds
 	Rounds     bool // C03: the clock only moves at barriers between rounds; deadline-aware lin model
 	SweepCheck bool // C13: advance the clock by more than a tick before the final CleanUp and demand a clean sweep
+	AsyncClock bool // C03/C02: tasks advance the clock while other operations are in flight; interval deadline model
 	NonTrivial func(o *ConcOutcome) bool
 }
 
@@ -43,18 +44,20 @@ type ConcMode struct {
 	Rounds     bool `json:"rounds,omitempty"`
 	NoCleanup  bool `json:"no_cleanup,omitempty"`
 	SweepCheck bool `json:"sweep_check,omitempty"`
+	AsyncClock bool `json:"async_clock,omitempty"`
 }
 
 // HistOp is one recorded operation of a client task.
 type HistOp struct {
-	Task int
-	Idx  int
-	Op   *Op
-	Call uint64
-	Ret  uint64
-	Res  Result
-	Done bool
-	Now  int64 // simulated clock when the operation was invoked
+	Task   int
+	Idx    int
+	Op     *Op
+	Call   uint64
+	Ret    uint64
+	Res    Result
+	Done   bool
+	Now    int64 // simulated clock when the operation was invoked
+	NowRet int64 // ... and when it returned
 }
 
 type ConcOutcome struct {
@@ -128,7 +131,7 @@ func runConc(seed uint64, cc *ConcCase, schedule []simrt.Deviation, replay bool,
 	cfg := cc.Cfg
 	if m := cc.Mode; m != nil {
 		o2 := *opts
-		o2.Lin, o2.Rounds, o2.NoCleanup, o2.SweepCheck = m.Lin, m.Rounds, m.NoCleanup, m.SweepCheck
+		o2.Lin, o2.Rounds, o2.NoCleanup, o2.SweepCheck, o2.AsyncClock = m.Lin, m.Rounds, m.NoCleanup, m.SweepCheck, m.AsyncClock
 		opts = &o2
 	}
 	cr := &concRun{cc: cc, opts: opts, probe: out.Probes, taskFinish: map[int]uint64{}}
@@ -165,6 +168,19 @@ func runConc(seed uint64, cc *ConcCase, schedule []simrt.Deviation, replay bool,
 		rule := "sim." + string(w.Fail.Kind)
 		if w.Fail.Kind == simrt.FailHarness {
 			props = P("C02", "C04", "C05", "C06", "C08", "C09", "C14", "C15", "C16", "C17", "C20")
+		}
+		// a client that never got out of a manual refresh is owed its result by C11, one stuck in a
+		// loading call by C10 (besides the liveness halves of C08 / C14)
+		for _, h := range cr.hist {
+			if h.Done {
+				continue
+			}
+			switch h.Op.Kind {
+			case "refresh", "bulkrefresh":
+				props = withProp(props, "C11")
+			case "load", "bulkget":
+				props = withProp(props, "C10")
+			}
 		}
 		cr.fail(props, rule, -1, "%s", w.Fail.Detail)
 	} else {
@@ -221,7 +237,7 @@ func (cr *concRun) main() {
 		mainCtx.opIdx, mainCtx.opKind, mainCtx.op = i, op.Kind, op
 		h := &HistOp{Task: -1, Idx: i, Op: op, Call: w.Tick(), Now: w.Now}
 		h.Res = r.Exec(op)
-		h.Ret = w.Tick()
+		h.Ret, h.NowRet = w.Tick(), w.Now
 		h.Done = true
 		cr.hist = append(cr.hist, h)
 	}
@@ -244,7 +260,7 @@ func (cr *concRun) main() {
 				h := &HistOp{Task: ti, Idx: i, Op: op, Call: w.Tick(), Now: w.Now}
 				cr.hist = append(cr.hist, h)
 				h.Res = r.Exec(op)
-				h.Ret = w.Tick()
+				h.Ret, h.NowRet = w.Tick(), w.Now
 				h.Done = true
 				w.Log(uint64(ti)<<48 ^ uint64(i)<<32 ^ uint64(uint32(h.Res.V))<<1 ^ b2u(h.Res.Ok))
 			}
